@@ -441,6 +441,7 @@ REGISTRY["C12"] = {
         M("c12_readd_updates_role", "whole BackendList::add_backend; backend fields symbolic", "re-adding an existing (backend_id, address) stores the new backup flag (taken from the re-added backend) and refreshes sticky id and load-balancing parameters; every path inserts or updates", BK[:1], prop="c12", which="readd"),
         M("c12_cascade_skeleton", "whole next_available_backend_with_key; emptiness of each tier symbolic (is_empty consistent on an unchanged vector)", "primary tier asked first (backup=false), backup tier only when it is empty, fail-open set only when both are empty, the policy is asked exactly once on the first non-empty tier, never on an empty one", BK[:1], prop="c12", which="cascade"),
         M("c12_backoff_window_armed", "whole ExponentialBackoffPolicy::fail; Instant/Duration/rng uninterpreted", "the window test is last_try.elapsed() < wait; a failure outside the window rewrites wait, last_try and current_tries on every path, one inside it writes nothing", BK, prop="c12", which="backoff"),
+        M("c12_maglev_full_table_scan", "whole Maglev::next_available_backend, probe loop unrolled once", "the probe loop is `0..self.size` and the stateful round-robin fallback of the keyed path is reachable only once that iterator returned None", ["lib/src/load_balancing.rs"], prop="c12", which="maglev"),
     ],
 }
 
